@@ -242,6 +242,10 @@ pub struct GeppInfo {
     pub growth: f64,
     /// smallest |pivot| / max|a|
     pub min_pivot_rel: f64,
+    /// smallest |pivot| / (eps * running magnitude of the terms that formed it): a value of order 1 means the pivot
+    /// is indistinguishable from the rounding noise of its own computation (matrix singular to working precision
+    /// for this elimination order); 1/eps when the pivot is an original entry
+    pub pivot_noise: f64,
     pub x: Option<Vec<C>>,
 }
 
@@ -256,6 +260,9 @@ pub fn gepp(a: &M<C>, b: Option<&[C]>) -> GeppInfo {
     let mut first = None;
     let mut last = None;
     let mut minpiv = f64::INFINITY;
+    // running error bound: mag[i][j] = |a_ij| + sum over the updates of |l_ik| |u_kj|
+    let mut mag: Vec<Vec<f64>> = a.iter().map(|r| r.iter().map(|z| cabs(*z)).collect()).collect();
+    let mut noise = f64::INFINITY;
     for k in 0..n {
         let mut p = k;
         let mut best = cabs(m[k][k]);
@@ -268,6 +275,7 @@ pub fn gepp(a: &M<C>, b: Option<&[C]>) -> GeppInfo {
         }
         if p != k {
             m.swap(p, k);
+            mag.swap(p, k);
             rhs.swap(p, k);
             exchanges += 1;
             if first.is_none() {
@@ -276,6 +284,9 @@ pub fn gepp(a: &M<C>, b: Option<&[C]>) -> GeppInfo {
             last = Some(k);
         }
         minpiv = minpiv.min(best);
+        if mag[k][k] > 0.0 {
+            noise = noise.min(best / (f64::EPSILON * mag[k][k]));
+        }
         if best == 0.0 {
             continue;
         }
@@ -284,6 +295,7 @@ pub fn gepp(a: &M<C>, b: Option<&[C]>) -> GeppInfo {
             for j in k..n {
                 let t = cmul(f, m[k][j]);
                 m[i][j] = csub(m[i][j], t);
+                mag[i][j] += cabs(t);
                 gmax = gmax.max(cabs(m[i][j]));
             }
             rhs[i] = csub(rhs[i], cmul(f, rhs[k]));
@@ -308,6 +320,7 @@ pub fn gepp(a: &M<C>, b: Option<&[C]>) -> GeppInfo {
         last_exchange_step: last,
         growth: if amax > 0.0 { gmax / amax } else { 1.0 },
         min_pivot_rel: if amax > 0.0 { minpiv / amax } else { 0.0 },
+        pivot_noise: noise,
         x,
     }
 }
